@@ -208,6 +208,35 @@ func (g *Gen) Blocks(max int) []Blk {
 	return out
 }
 
+// EdgeBlocks: one block of every special shape the generators know, in a fixed order — the
+// deterministic corpus each family runs first, so that catching a change that needs one of these
+// shapes does not depend on the seed.
+func (g *Gen) EdgeBlocks() []Blk {
+	mk := func(codec uint64, code uint64, d []byte) Blk {
+		h, _ := mh.Sum(d, code, -1)
+		return Blk{cid.NewCidV1(codec, h), d}
+	}
+	d := g.bytes(9)
+	sh, _ := mh.Sum(d, mh.SHA2_256, -1)
+	dec, _ := mh.Decode(sh)
+	pre := g.bytes(12)
+	out := []Blk{
+		mk(cid.Raw, mh.SHA2_256, g.bytes(7)),
+		mk(cid.Raw, mh.IDENTITY, []byte{}),                            // the empty identity CID
+		mk(cid.Raw, mh.SHA2_256, []byte{}),                            // an empty block
+		mk(cid.Raw, mh.IDENTITY, g.bytes(5)),                          // a short identity block
+		{cid.NewCidV1(cid.Raw, sh), d}, {cid.NewCidV1(cid.DagCBOR, sh), d}, // same multihash, two codecs
+		mk(cid.Raw, mh.IDENTITY, dec.Digest),                          // identity CID whose digest is another block's sha2 digest
+		mk(cid.Raw, mh.IDENTITY, append(append([]byte{}, pre...), 1, 7)), // identity near twins
+		mk(cid.Raw, mh.IDENTITY, append(append([]byte{}, pre...), 2, 9)),
+		mk(cid.DagProtobuf, mh.SHA2_512, g.bytes(3)),
+		{cid.NewCidV0(sh), d}, // CIDv0 of the same multihash
+		mk(cid.Raw, mh.SHA2_256, g.bytes(130)), // 2-byte length prefix
+	}
+	out = append(out, out[0]) // a repeated block
+	return out
+}
+
 // Roots picks a root list: nil, empty, among the blocks, with duplicates, foreign.
 func (g *Gen) Roots(bs []Blk) []cid.Cid {
 	switch g.pick(8) {
